@@ -16,8 +16,10 @@ def main():
             t0 = time.time()
             inf = run.verify_contract(con, repo, models, speclib.SPEC_FUNCS)
             print('== %s#%s: %s %s (%d obligations, gen %.2fs)' % (con.target, con.variant, inf['status'], inf['detail'], len(inf['obligations']), time.time() - t0))
-            res = run.discharge(inf['obligations'])
-            for ob, r in zip(inf['obligations'], res):
+            only = os.environ.get('PV_ONLY')
+            obs = [o for o in inf['obligations'] if not only or any(x in o.name for x in only.split(','))]
+            res = run.discharge(obs)
+            for ob, r in zip(obs, res):
                 ok = (r['verdict'] == 'unsat') if ob.expect == 'unsat' else (r['verdict'] == 'sat')
                 print('  %-4s %-7s %-5s %6.2fs  %s  L%d %s %s' % ('ok' if ok else 'FAIL', r['verdict'], r['backend'], r['secs'], ob.name, ob.line, ob.detail[:70], r['reason'][:60]))
 if __name__ == '__main__':
